@@ -58,3 +58,60 @@ prop(
 )
 
 NOT_APPLICABLE = {}
+
+STATIC_TECH = "contract-based frame / dominance / crash-condition obligations generated from the AST of the current source (vf/statics.py), z3 for the path-string facts"
+
+prop(
+    "C14",
+    level="proof",
+    static=True,
+    bounded="c14",
+    technique=STATIC_TECH + "; bounded: audit-hook + snapshot runs of every command",
+    explanation=(
+        "Every function of the package has a file-system frame (fs_modifies, default: nothing). Obligations, regenerated from the "
+        "source on every run: each write primitive (open with a write mode, os.mkdir/replace/..., shutil, tempfile, subprocess, "
+        "pathlib writers, dynamic code) occurring anywhere in ascmhl/ is one the owning function's frame declares, with the path "
+        "argument defined inside the frame (ascmhl folder of the history / below the flatten destination); per command, the set of "
+        "writer functions reachable in the call graph (over-approximated by method name) is within the command's documented frame "
+        "(verify*, diff, info*, hash, xsd-schema-check: none); read-only commands cannot reach commit; root/destination parameters "
+        "are not redirected. The bounded part runs every command on small worlds under an audit hook and a before/after snapshot."
+    ),
+    assumptions=[
+        "writes made by C extensions or through objects obtained dynamically are invisible to the AST walk (dynamic code / subprocess use is itself flagged)",
+        "method calls are resolved by name over all classes of the package (over-approximation)",
+        "creating the ascmhl folder updates the parent directory's mtime: that is the documented effect",
+    ],
+)
+prop(
+    "C05",
+    level="proof",
+    static=True,
+    prover=True,
+    bounded="c05",
+    technique="contracts on the chain-check region of MHLHistory.load_from_path (pyvc VCs, z3) + dominance/frame obligations on every command body (vf/statics.py); bounded: tamper runs",
+    explanation=(
+        "load_from_path's chain-check region is under contract (returns normally only if every chained manifest exists and its "
+        "digest equals the recorded one; the three refusals carry exit codes 31/32/33 - ground obligations on errors.py); every "
+        "history-reading command body loads the history unconditionally, outside any try, before the first call that can reach a "
+        "write primitive (dominance obligations over the call graph); child histories are loaded through the same function; the "
+        "chain writer copies recorded digests of old generations and never recomputes them from disk. 'Bytes differ => digest "
+        "differs' is relative to collision resistance of C4/SHA-512 (assumed)."
+    ),
+    assumptions=["collision resistance of SHA-512 (CR)", "click turns a ClickException into the process exit code", "lxml parses the chain file the writer wrote (C10)"],
+)
+prop(
+    "C15",
+    level="proof",
+    static=True,
+    bounded="c15",
+    technique=STATIC_TECH + "; bounded: kill -9 at every file-system event of create in a subprocess, then info/verify/create",
+    explanation=(
+        "Crash conditions of write_hash_list and write_chain as obligations over their effect trace (extracted from the AST): the "
+        "only file opened for writing is the temporary name, opened truncating; the temporary name is invisible to the loader for "
+        "every path (z3 over strings: no p with (p+'.tmp') ending in .mhl / the chain or collection file name); the single "
+        "os.replace onto the final name comes after close, is the last effect and is not in a finally block; commit writes each "
+        "history's manifest before its chain entry and children before parents. Hence after any prefix of the trace every file the "
+        "loader opens is a complete old or complete new document."
+    ),
+    assumptions=["os.replace is atomic on POSIX; a killed process loses only its unflushed user-space buffers", "power loss without fsync is outside the statement"],
+)
